@@ -182,6 +182,12 @@ func (s *sim) AttestationData(ctx context.Context, opts *api.AttestationDataOpts
 		}
 	case "source-above-target":
 		d.Source.Epoch = phase0.Epoch(epoch + 1)
+	case "source-far-future":
+		d.Source.Epoch = phase0.Epoch(^uint64(0) - uint64(ri%16)) // FAR_FUTURE_EPOCH and its neighbours
+	case "source-2^63":
+		d.Source.Epoch = phase0.Epoch(uint64(1)<<63 + uint64(ri))
+	case "target-far-future":
+		d.Target.Epoch = phase0.Epoch(^uint64(0))
 	}
 	s.mu.Lock()
 	n := uint64(len(s.replies))
@@ -322,6 +328,7 @@ func Generate(r *rand.Rand) *History {
 	nRuns := 2 + r.Intn(9)
 	epoch := uint64(r.Intn(3))
 	dataKinds := []string{"ok", "ok", "ok", "ok", "ok", "error", "wrong-slot", "target-above", "target-below", "source-above-target"}
+	hugeKinds := []string{"source-far-future", "source-2^63", "target-far-future"}
 	for i := 0; i < nRuns; i++ {
 		// epochs drift forward; a duty for e is never started after one for e+2 completed
 		if r.Intn(4) == 0 {
@@ -402,6 +409,11 @@ func Generate(r *rand.Rand) *History {
 	h.Runs[len(h.Runs)-1].Overlap = false
 	// a third of the histories put a real attestation data strategy over two nodes in front of the attester
 	r2 := rand.New(rand.NewSource(r.Int63()))
+	for i := range h.Runs {
+		if r2.Intn(12) == 0 {
+			h.Runs[i].DataKind = hugeKinds[r2.Intn(len(hugeKinds))] // epochs at the top of the uint64 range
+		}
+	}
 	if r2.Intn(3) == 0 {
 		h.Strategy = []string{"best", "majority", "first"}[r2.Intn(3)]
 		for i := range h.Runs {
